@@ -20,7 +20,7 @@ From Coq Require Import List ZArith NArith QArith Qcanon Bool.
 Import ListNotations.
 Require Import UPV.Core.Expr UPV.Core.Eval UPV.Core.Interp UPV.Planning.Problem UPV.Planning.Sem.
 Require Import UPV.Compilers.Variants UPV.Compilers.LayerA_Defs UPV.Compilers.LayerA_Quant.
-Require Import UPV.Compilers.SimCheck.
+Require Import UPV.Compilers.SimCheck UPV.Compilers.LayerA_DcrGoal.
 
 (* ------------------------------------------------------------------ regression *)
 (* `literal == eff.fluent` (hash-consed FNodes: syntactic equality of the fluent expression) *)
@@ -346,3 +346,23 @@ Definition always_valid (P : problem) (C : list expr) (s0 : state) (pi : list (N
 (* all constraints are `always phi` with phi in the regression fragment *)
 Definition always_only (P : problem) (C : list expr) : bool :=
   forallb (fun c => match c with EAlways phi => gform phi && gbool P phi | _ => false end) C.
+
+(* ------------------------------------------------------------------ the specification for one `sometime` constraint *)
+(* phi holds in s or in some state the plan visits afterwards (in the original problem) *)
+Fixpoint sometime_seen (P : problem) (phi : expr) (s : state) (pi : list (N * list value)) : bool :=
+  holds false (mk_interp P s []) phi ||
+  match pi with
+  | [] => false
+  | (aid, args) :: r =>
+      match lookup_action P aid with
+      | Some a => match spec_step false P s a args with Some t => sometime_seen P phi t r | None => false end
+      | None => false
+      end
+  end.
+
+(* freshness of the monitoring fluent fk (the compiler takes the name "hold-0" without looking): no action, invariant,
+   bounded-type constraint or goal of the problem, nor the constraint formula or a simplified regression of it, mentions
+   fk.  Decidable. *)
+Definition tcr_fresh1 (smp : expr -> expr) (fk : N) (P : problem) (phi : expr) : bool :=
+  forallb (fun ia => action_cleanf fk (snd ia) && cleanf fk (R smp (snd ia) phi)) (p_actions P) &&
+  forallb (cleanf fk) (p_invs P ++ bound_invs P) && forallb (cleanf fk) (p_goals P) && cleanf fk phi.
